@@ -10,14 +10,6 @@ through a `ReservedHeapSection` — and `cap` the capacity at the time of the wr
 -/
 namespace Scryer.Heap
 
-/-- `(byte_len, byte_cap)` after an operation. -/
-def Res.lenCap {α : Type} : Res α → Option (Nat × Nat)
-  | .ok h _ => some (h.len, h.cap)
-  | .allocErr h => some (h.len, h.cap)
-  | .panic h => some (h.len, h.cap)
-  | .contract h => some (h.len, h.cap)
-  | .stuck => none
-
 /-- **Capacity invariant, every operation sequence.** Starting from any heap that satisfies the
 invariant, after ANY sequence of operations (pushes, reservations with writes, string allocation,
 string copying, slice copying, appending, truncation, list and functor writing, grows that succeed
@@ -136,45 +128,6 @@ theorem C33_pstr_reservation_suffices (sec : Section) (src : List Nat) :
   have := pushPstr_count sec src
   exact ⟨this, by omega⟩
 
-theorem cps_empty (fc : Nat) : computePstrSizeLoop fc 0 [] = 0 := by
-  cases fc <;> rfl
-
-theorem cps_bound (fc : Nat) : ∀ (src : List Nat), src.length < fc →
-    computePstrSizeLoop fc 0 src ≤ 16 * src.length := by
-  induction fc with
-  | zero => intro src h; omega
-  | succ fc ih =>
-    intro src h
-    cases src with
-    | nil => rw [cps_nil]; omega
-    | cons b rest =>
-      simp only [List.length_cons] at h
-      by_cases hb : b = 0
-      · subst hb
-        rw [cps_nul, cps_acc]
-        have := ih rest (by omega)
-        simp only [List.length_cons]; unfold heapIndex; omega
-      · rw [cps_seg _ _ _ _ hb, cps_acc, scanFromStart_fst, scanFromStart_snd]
-        cases hf : findNul (b :: rest) with
-        | some idx =>
-          simp only [Option.getD_some]
-          have hs := findNul_some hf
-          have hpos := findNul_cons_pos hb hf
-          simp only [List.length_cons] at hs
-          have := ih ((b :: rest).drop idx) (by rw [List.length_drop]; simp only [List.length_cons]; omega)
-          rw [List.length_drop] at this
-          have hseg : heapIndex (segCells idx) ≤ 16 * idx := by
-            unfold heapIndex segCells; split <;> omega
-          simp only [List.length_cons] at this ⊢
-          omega
-        | none =>
-          simp only [Option.getD_none, List.drop_length]
-          rw [cps_empty]
-          have hseg : heapIndex (segCells (b :: rest).length) ≤ 16 * (b :: rest).length := by
-            simp only [List.length_cons]
-            unfold heapIndex segCells; split <;> omega
-          omega
-
 /-- arithmetic the code leaves unchecked: `compute_pstr_size(s) ≤ 16·len(s) + 8` for every
 string, so its `usize` additions (and the `+ 1` of `allocate_cstr`) cannot overflow for strings
 shorter than 2^59 bytes. -/
@@ -201,12 +154,6 @@ theorem C33_witness_old_copy_guard :
     ((witnessHeap.copyPstrWithinG copyNeedOld 0).heapD {}).log.head? = some ⟨256, 8, 248, 256, 256⟩ ∧
     (witnessHeap.copyPstrWithin 0).lenCap = some (248, 256) := by
   decide +kernel
-
-theorem growUntil_fits (h : Heap) (need : Nat) (hfit : need ≤ h.freeSpace) :
-    growUntil loopFuel h need = .ok h () := by
-  show growUntil (65 + 1) h need = _
-  unfold growUntil
-  rw [if_pos hfit]
 
 /-- **The defect characterised for every state**: whenever the string at `loc` has length ≡ 7
 (mod 8) and exactly `copy_size` bytes are free, the original guard lets the copy run 8 bytes past
